@@ -192,3 +192,24 @@ Proof.
     + assert (k = 0 \/ k = 1) as [-> | ->] by lia; eexists; reflexivity.
     + assert (k = 1) as -> by lia. cbn. discriminate.
 Qed.
+
+(* ---- through the C API: after EVERY sequence of C calls (keys with any int, candidate / configuration / user-phrase
+   calls, resets, engine and layout switches at any moment) the conversion the context reports for its buffer - with
+   the modelled engines, all three kinds - starts at 0, is contiguous and ends at chewing_buffer_Len; the pre-edit
+   string chewing_buffer_String is the concatenation of the interval texts ---- *)
+From Coq Require Import ZArith.
+From LC Require Import Gen.Editor_gen Gen.Keyboard_gen Model.Editor Model.EditorRun Model.EdInst Model.CapiKeys Model.CapiConfig Model.CapiRun
+     Proofs.EditorInv Proofs.EdInstProofs Proofs.CapiKeysProofs Proofs.CapiInv Proofs.EngineTiles Proofs.CapiEnter.
+Theorem C03_reported_conversion_tiles_the_buffer_after_any_C_calls : forall ss d ab t0 ops c,
+  ss_good ss -> ss_cursor ss = None -> md_fine d -> Forall cop_fine ops ->
+  crun mf_conv (cx_init d ab ss t0) ops = Ok c ->
+  contiguous 0 (Z.to_nat (chewing_buffer_Len c)) (conversion mf_conv (sh (cx_ed c))) = true /\
+  chewing_buffer_String mf_conv c = flat_map itext (conversion mf_conv (sh (cx_ed c))).
+Proof.
+  intros ss d ab t0 ops c Hg Hf Hd Hops H.
+  pose proof (crun_inv mf_conv mf_conv_tiles ss Hg Hf ops (cx_init d ab ss t0) c Hops (cx_init_inv ss d ab t0 Hg Hf Hd) H) as [[[W Hdk _ _] _] _].
+  split; [|reflexivity].
+  unfold chewing_buffer_Len, flag, c_flags. cbn [List.nth]. rewrite Nat2Z.id. unfold conversion, ce_len.
+  apply mf_conv_tiles; [exact Hdk | destruct W as [Wi _]; exact Wi].
+Qed.
+Print Assumptions C03_reported_conversion_tiles_the_buffer_after_any_C_calls.
